@@ -7,15 +7,15 @@
                         one, ANY child index otherwise: torn reads of the key array are over-approximated) / GC2 child load / GC3 stable(child) /
                         GC4 stable(parent) again / LV1 PermLd LV2 get_lv_of / get: GVal GFc
      put              : Lock Chk (sets inserting) / not full: PUndel PSlot PPub PUnlock, update: PSet PUnlock /
-                        full: S1 splitting / S3 B3 := copy of the version, linked behind the border / S3b next.prev := B3 /
+                        full: S1 splitting / S3a B3 := copy of the version / S3 linked behind the border / S3b next.prev := B3 /
                         per moved entry SMove SPerm / S6 / S7a S7b (commit) /
                         lock_parent: LpLd / LpL lock parent / LpC re-check (changed -> unlock, again) / [no parent: SRl root lock, SRl2 root = this?]
                         no parent (root border):  N1a N1b (P2 built privately) N1c N2 N3 N4 root pointer := P2, N5, N6
                         interior parent        :  X1 X2 root flags off / X3 X4 unlock the borders / X5 B3.parent / X6 P.inserting /
-                                                  XKey key array / XCh child array / XN n_keys + 1 / X9 unlock P
+                                                  XKey key array / XChS per-element shift of the child array / XCh new child / XN n_keys + 1 / X9 unlock P
      remove           : Lock Chk RClear RPub (commit) [RUnlock] / RDel / RPrev RPLock RPChk RPNP RPUnl RNextFix / RLp RLpl RLpc RRl RRl2 RClrP RClrN RRUnl /
                         RRoot0 RSelfUnl / IIns / one key left: IDel INkSt IRl IRoot0 ISibRoot IRootSt ISibPar IRUnl IPUnl (collapse) /
-                        more keys: YShiftK YShiftC YClrC YClrK YN YUnl
+                        more keys: YShiftK, YShiftC (per element), YClrC YClrK YN YUnl
    Ghosts abs / seen / res as in YkConc.  Defect switches: UNLOCK_BEFORE_PARENT (the split unlocks its borders before it owns the
    parent lock), NO_INS_ON_INSERT (interior insert without the inserting mark), NO_INS_ON_DELETE (interior delete without it). *)
 EXTENDS Naturals, Sequences, FiniteSets, TLC
@@ -152,11 +152,13 @@ PUnlock(t) == /\ pc[t] = "p_unlock" /\ SetBV(loc[t].b, Unl(bd[loc[t].b].ver)) /\
 \* ---------------------------------------------------------------- put into a full border: border_split
 S1(t) == /\ pc[t] = "s1" /\ SetBV(loc[t].b, [bd[loc[t].b].ver EXCEPT !.spl = TRUE]) /\ Goto(t, "s3")
          /\ UNCHANGED <<it, rootp, rootlock, loc, abs, seen, res>>
-\* B3 is allocated (invisible) with prev / next and a copy of the border's locked + dirty version, then linked behind the border
-S3(t) == /\ pc[t] = "s3" /\ LET b == loc[t].b IN
-            /\ bd' = [bd EXCEPT ![3] = [EmptyB EXCEPT !.ver = bd[b].ver, !.prev = b, !.next = bd[b].next], ![b].next = 3]
+\* B3 is allocated (invisible) with prev / next and a copy of the border's locked + dirty version (S3a), then linked behind the border (S3)
+S3a(t) == /\ pc[t] = "s3" /\ LET b == loc[t].b IN bd' = [bd EXCEPT ![3] = [EmptyB EXCEPT !.ver = bd[b].ver, !.prev = b, !.next = bd[b].next]]
+          /\ loc' = [loc EXCEPT ![t].mv = 1, ![t].nb = 3] /\ Goto(t, "s3l") /\ UNCHANGED <<it, rootp, rootlock, abs, seen, res>>
+S3(t) == /\ pc[t] = "s3l" /\ LET b == loc[t].b IN
+            /\ bd' = [bd EXCEPT ![b].next = 3]
             /\ Goto(t, IF bd[b].next # NULL THEN "s3b" ELSE "smove")
-         /\ loc' = [loc EXCEPT ![t].mv = 1, ![t].nb = 3] /\ UNCHANGED <<it, rootp, rootlock, abs, seen, res>>
+         /\ UNCHANGED <<it, rootp, rootlock, loc, abs, seen, res>>
 S3b(t) == /\ pc[t] = "s3b" /\ bd' = [bd EXCEPT ![bd[3].next].prev = 3] /\ Goto(t, "smove")
           /\ UNCHANGED <<it, rootp, rootlock, loc, abs, seen, res>>
 SMove(t) == /\ pc[t] = "smove" /\ LET b == loc[t].b src == bd[b].perm[Keep + 1] dst == loc[t].mv - 1 IN
@@ -167,10 +169,13 @@ SPerm(t) == /\ pc[t] = "sperm" /\ bd' = [bd EXCEPT ![loc[t].b].perm = SubSeq(@, 
             /\ UNCHANGED <<it, rootp, rootlock, abs, seen, res>>
 S6(t) == /\ pc[t] = "s6" /\ bd' = [bd EXCEPT ![3].perm = [i \in 1..(F - Keep) |-> i - 1]] /\ Goto(t, "s7a")
          /\ UNCHANGED <<it, rootp, rootlock, loc, abs, seen, res>>
-S7a(t) == /\ pc[t] = "s7a"
-          /\ LET side == IF Op(t).k < bd[3].ks[0] THEN loc[t].b ELSE 3 s == FreeSlot(bd[side].perm) IN
-             /\ bd' = [bd EXCEPT ![side].ks[s] = Op(t).k, ![side].lv[s] = Op(t).v] /\ loc' = [loc EXCEPT ![t].sib = side, ![t].idx = s]
-          /\ Goto(t, "s7b") /\ UNCHANGED <<it, rootp, rootlock, abs, seen, res>>
+\* the free slot comes from the permutation word's free list: any free slot; the model check uses the lowest
+S7aAt(t, s) == /\ pc[t] = "s7a"
+               /\ LET side == IF Op(t).k < bd[3].ks[0] THEN loc[t].b ELSE 3 IN
+                  /\ s \in Slots /\ \A i \in 1..Len(bd[side].perm) : bd[side].perm[i] # s
+                  /\ bd' = [bd EXCEPT ![side].ks[s] = Op(t).k, ![side].lv[s] = Op(t).v] /\ loc' = [loc EXCEPT ![t].sib = side, ![t].idx = s]
+               /\ Goto(t, "s7b") /\ UNCHANGED <<it, rootp, rootlock, abs, seen, res>>
+S7a(t) == pc[t] = "s7a" /\ S7aAt(t, FreeSlot(bd[IF Op(t).k < bd[3].ks[0] THEN loc[t].b ELSE 3].perm))
 S7b(t) == /\ pc[t] = "s7b"
           /\ LET side == loc[t].sib IN bd' = [bd EXCEPT ![side].perm = InsertAt(@, RankOf(side, @, Op(t).k), loc[t].idx)]
           /\ Commit(Op(t).k, Op(t).v) /\ Goto(t, IF UNLOCK_BEFORE_PARENT THEN "u1" ELSE "lp_ld") /\ UNCHANGED <<it, rootp, rootlock, loc, res>>
@@ -225,10 +230,15 @@ X6(t) == /\ pc[t] = "x6" /\ LET p == loc[t].pn IN
             /\ loc' = [loc EXCEPT ![t].i = ChildIdx(p, bd[3].ks[0])]
          /\ Goto(t, "xkey") /\ UNCHANGED <<bd, rootp, rootlock, abs, seen, res>>
 XKey(t) == /\ pc[t] = "xkey" /\ LET p == loc[t].pn i == loc[t].i IN
-              it' = [it EXCEPT ![p].key = [j \in 0..(F-1) |-> IF j < i THEN it[p].key[j] ELSE IF j = i THEN bd[3].ks[0] ELSE it[p].key[j - 1]]]
-           /\ Goto(t, "xch") /\ UNCHANGED <<bd, rootp, rootlock, loc, abs, seen, res>>
-XCh(t) == /\ pc[t] = "xch" /\ LET p == loc[t].pn i == loc[t].i IN
-             it' = [it EXCEPT ![p].ch = [j \in 0..F |-> IF j <= i THEN it[p].ch[j] ELSE IF j = i + 1 THEN 3 ELSE it[p].ch[j - 1]]]
+              /\ it' = [it EXCEPT ![p].key = [j \in 0..(F-1) |-> IF j < i THEN it[p].key[j] ELSE IF j = i THEN bd[3].ks[0] ELSE it[p].key[j - 1]]]
+              /\ IF it[p].n + 1 > i + 1 THEN loc' = [loc EXCEPT ![t].mv = it[p].n + 1] /\ Goto(t, "xchs") ELSE Goto(t, "xch") /\ UNCHANGED loc
+           /\ UNCHANGED <<bd, rootp, rootlock, abs, seen, res>>
+\* shift_right_children: one child pointer per step, from the right end down to the insert position
+XChS(t) == /\ pc[t] = "xchs" /\ LET p == loc[t].pn j == loc[t].mv IN
+              /\ it' = [it EXCEPT ![p].ch[j] = it[p].ch[j - 1]]
+              /\ IF j - 1 = loc[t].i + 1 THEN Goto(t, "xch") /\ UNCHANGED loc ELSE loc' = [loc EXCEPT ![t].mv = j - 1] /\ UNCHANGED pc
+           /\ UNCHANGED <<bd, rootp, rootlock, abs, seen, res>>
+XCh(t) == /\ pc[t] = "xch" /\ it' = [it EXCEPT ![loc[t].pn].ch[loc[t].i + 1] = 3]
           /\ Goto(t, "xn") /\ UNCHANGED <<bd, rootp, rootlock, loc, abs, seen, res>>
 XN(t) == /\ pc[t] = "xn" /\ it' = [it EXCEPT ![loc[t].pn].n = @ + 1] /\ Goto(t, "x9")
          /\ UNCHANGED <<bd, rootp, rootlock, loc, abs, seen, res>>
@@ -294,10 +304,13 @@ IIns(t) == /\ pc[t] = "i_ins" /\ LET p == loc[t].pn i == CHOOSE j \in 0..it[p].n
 \* more than one key: the interior stays; keys and children are shifted over the removed position
 YShiftK(t) == /\ pc[t] = "y_shiftk" /\ LET p == loc[t].pn i == loc[t].i s == IF i = 0 THEN 0 ELSE i - 1 IN
                  it' = [it EXCEPT ![p].key = [j \in 0..(F-1) |-> IF j < s THEN it[p].key[j] ELSE IF j + 1 <= F - 1 THEN it[p].key[j + 1] ELSE it[p].key[j]]]
-              /\ Goto(t, "y_shiftc") /\ UNCHANGED <<bd, rootp, rootlock, loc, abs, seen, res>>
-YShiftC(t) == /\ pc[t] = "y_shiftc" /\ LET p == loc[t].pn i == loc[t].i IN
-                 it' = [it EXCEPT ![p].ch = [j \in 0..F |-> IF j < i THEN it[p].ch[j] ELSE IF j + 1 <= F THEN it[p].ch[j + 1] ELSE it[p].ch[j]]]
-              /\ Goto(t, "y_clrc") /\ UNCHANGED <<bd, rootp, rootlock, loc, abs, seen, res>>
+              /\ loc' = [loc EXCEPT ![t].mv = IF loc[t].i = 0 THEN 1 ELSE loc[t].i + 1]
+              /\ Goto(t, "y_shiftc") /\ UNCHANGED <<bd, rootp, rootlock, abs, seen, res>>
+\* shift_left_children: one child pointer per step, up to the end of the array
+YShiftC(t) == /\ pc[t] = "y_shiftc" /\ LET p == loc[t].pn j == loc[t].mv IN
+                 /\ it' = [it EXCEPT ![p].ch[j - 1] = it[p].ch[j]]
+                 /\ IF j = F THEN Goto(t, "y_clrc") /\ UNCHANGED loc ELSE loc' = [loc EXCEPT ![t].mv = j + 1] /\ UNCHANGED pc
+              /\ UNCHANGED <<bd, rootp, rootlock, abs, seen, res>>
 YClrC(t) == /\ pc[t] = "y_clrc" /\ it' = [it EXCEPT ![loc[t].pn].ch[it[loc[t].pn].n] = NULL] /\ Goto(t, "y_clrk")
             /\ UNCHANGED <<bd, rootp, rootlock, loc, abs, seen, res>>
 YClrK(t) == /\ pc[t] = "y_clrk" /\ it' = [it EXCEPT ![loc[t].pn].key[it[loc[t].pn].n - 1] = 0] /\ Goto(t, "y_n")
@@ -327,9 +340,9 @@ IPUnl(t) == /\ pc[t] = "i_punl" /\ SetIV(loc[t].pn, Unl(it[loc[t].pn].ver)) /\ R
             /\ UNCHANGED <<bd, rootp, rootlock, loc, abs, seen>>
 Step(t) == Start(t) \/ G0(t) \/ FB(t) \/ GC1(t) \/ GC2(t) \/ GC3(t) \/ GC4(t) \/ LV1(t) \/ PermLd(t) \/ LV2(t) \/ GVal(t) \/ GFc(t)
            \/ RFc0(t) \/ Lock(t) \/ Chk(t) \/ PUndel(t) \/ PSlot(t) \/ PPub(t) \/ PSet(t) \/ PUnlock(t)
-           \/ S1(t) \/ S3(t) \/ S3b(t) \/ SMove(t) \/ SPerm(t) \/ S6(t) \/ S7a(t) \/ S7b(t) \/ U1(t) \/ U2(t)
+           \/ S1(t) \/ S3a(t) \/ S3(t) \/ S3b(t) \/ SMove(t) \/ SPerm(t) \/ S6(t) \/ S7a(t) \/ S7b(t) \/ U1(t) \/ U2(t)
            \/ LpLd(t) \/ SRl(t) \/ SRl2(t) \/ LpL(t) \/ LpC(t) \/ N1a(t) \/ N1b(t) \/ N1c(t) \/ N2(t) \/ N3(t) \/ N4(t) \/ N5(t) \/ N6(t)
-           \/ X1(t) \/ X2(t) \/ X3(t) \/ X4(t) \/ X5(t) \/ X6(t) \/ XKey(t) \/ XCh(t) \/ XN(t) \/ X9(t)
+           \/ X1(t) \/ X2(t) \/ X3(t) \/ X4(t) \/ X5(t) \/ X6(t) \/ XKey(t) \/ XChS(t) \/ XCh(t) \/ XN(t) \/ X9(t)
            \/ RClear(t) \/ RPub(t) \/ RUnlock(t) \/ RDel(t) \/ RPrev(t) \/ RNextFix(t) \/ RPLock(t) \/ RPChk(t) \/ RPNP(t) \/ RPUnl(t)
            \/ RLp(t) \/ RRl(t) \/ RRl2(t) \/ RClrP(t) \/ RClrN(t) \/ RRUnl(t) \/ RLpl(t) \/ RLpc(t) \/ RRoot0(t) \/ RSelfUnl(t)
            \/ IIns(t) \/ YShiftK(t) \/ YShiftC(t) \/ YClrC(t) \/ YClrK(t) \/ YN(t) \/ YUnl(t)
